@@ -207,23 +207,26 @@ def _second_order_integral(E: ndarray, eigvals: ndarray, dt: float,
     EdE = np.add.outer(E, dE, out=EdE)
     dEE = np.subtract.outer(-E, -dE, out=dEE)
     mask_dEdE = np.not_equal(dEdE, 0)
-    mask_EdE = np.not_equal(EdE, 0)
     mask_dEE = np.not_equal(dEE, 0)
-    mask_nEdE_dEE = np.logical_and(~mask_EdE[:, None, None], mask_dEE[..., None, None],
+    # The three cases are selected by dimensionless small-argument tests
+    mask_EdE = np.abs(EdE*dt) > 1e-8
+    mask_dEE_case = np.abs(dEE*dt) > 1e-8
+    mask_nEdE_dEE = np.logical_and(~mask_EdE[:, None, None], mask_dEE_case[..., None, None],
                                    out=mask_nEdE_dEE)
-    mask_nEdE_ndEE = np.logical_and(~mask_EdE[:, None, None], ~mask_dEE[..., None, None],
+    mask_nEdE_ndEE = np.logical_and(~mask_EdE[:, None, None], ~mask_dEE_case[..., None, None],
                                     out=mask_nEdE_ndEE)
     mask_EdE_dEE = np.broadcast_to(mask_EdE[:, None, None], int_buf.shape)
 
     # First term in the brackets
     exp_buf = util.cexp(dEE*dt, out=exp_buf, where=mask_dEE)
-    exp_buf = np.subtract(exp_buf, 1, out=exp_buf, where=mask_dEE)
+    # exp(ix) - 1 = -2 sin(x/2)**2 + i sin(x) without cancellation
+    exp_buf.real = np.multiply(-2, np.sin(dEE*dt/2)**2, out=exp_buf.real, where=mask_dEE)
     frc_buf1 = np.divide(exp_buf, dEE, out=frc_buf1, where=mask_dEE)
     frc_buf1[~mask_dEE] = 1j*dt
 
     # Second term in the brackets
     frc_buf2 = util.cexp(dEdE*dt, out=frc_buf2, where=mask_dEdE)
-    frc_buf2 = np.subtract(frc_buf2, 1, out=frc_buf2, where=mask_dEdE)
+    frc_buf2.real = np.multiply(-2, np.sin(dEdE*dt/2)**2, out=frc_buf2.real, where=mask_dEdE)
     frc_buf2 = np.divide(frc_buf2, dEdE, out=frc_buf2, where=mask_dEdE)
     frc_buf2[~mask_dEdE] = 1j*dt
 
